@@ -227,6 +227,12 @@ def apply_clauses(src, clauses):
             bare = name.split(":")[0]
             edits.append((p, p, f"let {name} = "))
             edits.append((toks[k].start, toks[k].start, ";\n" + c["text"].rstrip() + f"\n{bare}\n"))
+        elif op == "body_end":
+            # just in front of the closing brace of the function body (for bodies of unit type)
+            if body < 0:
+                raise LostAnchor("body_end: no body")
+            pos = toks[toks[body].mate].start
+            edits.append((pos, pos, "\n" + c["text"].rstrip() + "\n"))
         elif op == "before_tail":
             # in front of the function body's tail expression (anchor-free: statements are delimited by `;` at body depth
             # or by the closing brace of a block-like statement that is not continued)
